@@ -88,6 +88,8 @@ class Renderer:
         if op == "aidx":
             i = e[2]
             return f"{self.ref(e[1])}[{i[1] if i[0] == 'const' else self.rx(i)}]"
+        if op == "ridx":  # bit of a vector selected by a run-time index
+            return f"{self.rx(e[1])}[{self.rx(e[2])}]"
         raise AssertionError(op)
 
     def target(self, t):
